@@ -17,6 +17,7 @@ package main
 import (
 	"bytes"
 	"fmt"
+	"os"
 	"regexp"
 	"runtime"
 	"strings"
@@ -58,7 +59,13 @@ func gen(idx int) scase {
 	c.Flush = r.PickInt([]int{5, 50, 500})
 	switch c.Script {
 	case "throttled-slow":
-		c.Rate = r.Range(10, 60) * 1000
+		// slow enough that a single buffered write stays blocked for seconds: whatever the relay does about
+		// that (nothing today), lines must not vanish uncounted while the endpoint keeps reading
+		c.Rate = r.Range(10, 30) * 1000
+		c.Flush, c.IoBuf = 5, 65536
+		// ... which needs more traffic than the kernel's socket buffers (several MB on loopback) can absorb
+		c.LineLen, c.ConnBuf = 1000, 1000
+		c.Lines *= 2
 	case "throttled-fast":
 		c.Rate = r.Range(100, 500) * 1000
 	case "healthy-tinybuf":
@@ -375,6 +382,9 @@ func (r *runner) steadyUp(phase string, handed int, recvBase int, d *mon.Deltas)
 	r.res.Count("lines_handed", handed)
 	r.res.Count("lines_received", got)
 	r.res.Count("lines_dropped_slow_conn", int(slow))
+	if os.Getenv("VERIF_DEBUG") != "" {
+		fmt.Printf("DEBUG case %d %s %s: handed=%d got=%d slow=%d noconn=%d accepted=%d ok=%v\n", r.c.Index, r.c.Script, phase, handed, got, slow, noconn, r.ep.Accepted(), ok)
+	}
 	if _, bad := r.countLines(); bad != "" {
 		w := r.witness()
 		w["line"] = bad
@@ -655,6 +665,9 @@ func main() {
 	ran := 0
 	for i := 0; i < n; i++ {
 		if !mon.Mine(i) {
+			continue
+		}
+		if o := os.Getenv("VERIF_ONLY"); o != "" && o != fmt.Sprint(i) {
 			continue
 		}
 		c := gen(i)
